@@ -74,6 +74,8 @@ def run(ctx: Context) -> None:
     ctx.rule(c04.r5_picklable)
     ctx.rule(c04.r9_suffix_slices, pl)
     ctx.rule(c04.r7_restore_order, pl)
+    # the history a resumed run continues from is the history that was saved: the text path reads it back exactly, dropping and repairing nothing (C04-R3)
+    ctx.rule(c04.r3_text_path, pl)
     ctx.rule(c14.r4_checkpoint_on_every_exit, v, "R4")
 
 
